@@ -32,6 +32,12 @@ class Filtered:
     def __repr__(s): return f"{s.kind}.{s.what}"
 
 
+def noise_env(env):
+    """numeric cross-check environment for the filter design (only used to confirm that two different normal forms are different
+    functions): a physically ordered configuration fmin < fmax < fs/2."""
+    env.fixed.update({"fmin": 0.013 * (1 + env.seed % 5), "fmax": 11.0 + env.seed % 3, "fs": 100.0, "alpha": 0.7 + 0.25 * (env.seed % 4), "psd": 2.5})
+
+
 def make_interp(repo, legacy_log=None):
     setup()
     I = Interp(repo)
@@ -329,7 +335,7 @@ def check_filter_design(ctx, rule_c="R1-bilinear-coefficients", rule_p="R2-corne
     want = ((fs + pi * fhi) / (fs + pi * flo), -(fs - pi * fhi) / (fs + pi * flo), (fs - pi * flo) / (fs + pi * flo))
     if isinstance(r, tuple) and len(r) == 3 and all(to_x(v) is not None for v in r):
         for nm, got, w in zip(("a0", "a1", "b1"), r, want):
-            ctx.compare(rule_c, f"{m}[{nm}]", to_x(got), w, repo.where(m, repo.get(m)), detail=f"bilinear transform of (s+2*pi*f_hi)/(s+2*pi*f_lo): {nm}")
+            ctx.compare(rule_c, f"{m}[{nm}]", to_x(got), w, repo.where(m, repo.get(m)), detail=f"bilinear transform of (s+2*pi*f_hi)/(s+2*pi*f_lo): {nm}", prepare=noise_env)
     else:
         ctx.unknown(rule_c, m, f"coefficients not recognised: {r!r}"[:200], where)
     # ---- corner placement and packing, through the constructor
@@ -354,7 +360,7 @@ def check_filter_design(ctx, rule_c="R1-bilinear-coefficients", rule_p="R2-corne
     n_ref = mk_fn("ceil", [X.const(Fr(9, 2)) * (lw1 - lw0)])
     n = to_x(obj.attrs.get("_num_spectra"))
     if n is None: ctx.unknown(rule_p, key + "[sections]", f"{obj.attrs.get('_num_spectra')!r}", where)
-    else: ctx.compare(rule_p, key + "[number of sections]", n, n_ref, where, detail="n = ceil(4.5 * (log10 w_max - log10 w_min))")
+    else: ctx.compare(rule_p, key + "[number of sections]", n, n_ref, where, detail="n = ceil(4.5 * (log10 w_max - log10 w_min))", prepare=noise_env)
     dp = (lw1 - lw0) / n_ref
     a_lo, a_hi = rec[0][1], rec[0][2]
     for label, got, shift in (("pole corners", a_lo, X.const(0)), ("zero corners", a_hi, dp * al / 2)):
@@ -365,8 +371,8 @@ def check_filter_design(ctx, rule_c="R1-bilinear-coefficients", rule_p="R2-corne
         iv = X.var(A.axes[0][0])
         lp = lw0 + dp * (iv + Fr(1, 2) - al / 4) + shift
         wantf = mk_fn("pow", [X.const(10), lp], "pos") / two_pi
-        okc, _ = compare(A.axes[0][1], n_ref)
-        st_, why = compare(to_x(A.body), wantf)
+        okc, _ = compare(A.axes[0][1], n_ref, prepare=noise_env)
+        st_, why = compare(to_x(A.body), wantf, prepare=noise_env)
         ctx.ob(rule_p, c, st_ if okc == HOLDS else okc, ("f_i = 10^(log10 w_min + dp*(i + 1/2 - alpha/4)" + (" + dp*alpha/2" if label.startswith("zero") else "") + ")/(2 pi): " + why) if st_ != HOLDS else "", where,
                lhs=to_x(A.body), rhs=wantf)
     # effective corners and scaling
@@ -376,9 +382,9 @@ def check_filter_design(ctx, rule_c="R1-bilinear-coefficients", rule_p="R2-corne
         ctx.unknown(rule_s, key, "effective corners / scaling not recognised", where)
     else:
         first = to_x(arr_index(lo_arr, X.const(0))); last = to_x(arr_index(hi_arr, hi_arr.axes[0][1] - 1))
-        ctx.compare(rule_s, key + "[fmin]", f0, first, where, detail="effective lower corner = first pole corner")
-        ctx.compare(rule_s, key + "[fmax]", f1, last, where, detail="effective upper corner = last zero corner")
-        ctx.compare(rule_s, key + "[scaling]", sc, X.const(1) / mk_fn("pow", [last, al / 2], "pos"), where, detail="output scaled by fmax^(-alpha/2): unit density at 1 Hz")
+        ctx.compare(rule_s, key + "[fmin]", f0, first, where, detail="effective lower corner = first pole corner", prepare=noise_env)
+        ctx.compare(rule_s, key + "[fmax]", f1, last, where, detail="effective upper corner = last zero corner", prepare=noise_env)
+        ctx.compare(rule_s, key + "[scaling]", sc, X.const(1) / mk_fn("pow", [last, al / 2], "pos"), where, detail="output scaled by fmax^(-alpha/2): unit density at 1 Hz", prepare=noise_env)
     # packing for the cascade: numerator rows [a0, a1], denominator rows [1, -b1]
     ac, bc = as_arr(obj.attrs.get("_a_coeffs")), as_arr(obj.attrs.get("_b_coeffs"))
     if ac is None or bc is None or ac.ndim != 2 or bc.ndim != 2:
@@ -394,7 +400,7 @@ def check_filter_design(ctx, rule_c="R1-bilinear-coefficients", rule_p="R2-corne
             lo_i = to_x(arr_index(lo_arr, X.var(rowv))); hi_i = to_x(arr_index(hi_arr, X.var(rowv)))
             den = fs + pi * lo_i
             wantv = {"a0": (fs + pi * hi_i) / den, "a1": -(fs - pi * hi_i) / den, "1": X.const(1), "-b1": -(fs - pi * lo_i) / den}[nm]
-            ctx.compare(rule_c, c, el, wantv, where, detail=f"row i of the packed coefficients holds {nm} of section i")
+            ctx.compare(rule_c, c, el, wantv, where, detail=f"row i of the packed coefficients holds {nm} of section i", prepare=noise_env)
     # the white source has unit density at the generator's sampling rate
     w = obj.attrs.get("_whitenoise")
     okw = isinstance(w, Obj) and to_x(w.attrs.get("_fs")) is not None and to_x(w.attrs["_fs"]).eq(fs) and to_x(w.attrs.get("_rms")) is not None and to_x(w.attrs["_rms"]).eq(fs.sqrt())
